@@ -280,6 +280,8 @@ Section DecS.
 
   Lemma o1_np op x : o1 D op x <> Panic. Proof. apply of_option_not_panic. Qed.
   Lemma o2_np op x y : o2 D op x y <> Panic. Proof. apply of_option_not_panic. Qed.
+  Lemma ex2_np f op x y : ex2 D f op x y <> Panic.
+  Proof. unfold ex2. destruct (f x y); [discriminate|apply o2_np]. Qed.
   Lemma raw1_np op x : d1 D op x <> None -> raw1 D op x <> Panic.
   Proof. unfold raw1. destruct (d1 D op x); [discriminate|congruence]. Qed.
   Lemma raw2_np op x y : d2 D op x y <> None -> raw2 D op x y <> Panic.
@@ -287,7 +289,7 @@ Section DecS.
 
   Ltac np :=
     repeat first
-      [ apply o1_np | apply o2_np | discriminate
+      [ apply o1_np | apply o2_np | apply ex2_np | discriminate
       | apply raw1_np; first [apply (rt_d1 RT); reflexivity | apply (rt_exp_m1 RT) | apply (rt_ln2 RT)]
       | apply raw2_np; first [apply (rt_rem1 RT) | apply (rt_div3 RT) | apply (rt_min RT) | apply (rt_max RT)]
       | apply bind_np; [|intros ?]
